@@ -546,7 +546,11 @@ func setEnv(op map[string]any) {
 	if !ok {
 		return
 	}
+	cover := os.Getenv("GOCOVERDIR") // tools/coverage.py: the instrumented binary writes its counters there at exit
 	os.Clearenv()
+	if cover != "" {
+		os.Setenv("GOCOVERDIR", cover)
+	}
 	for k, v := range env {
 		if s, ok := v.(string); ok {
 			os.Setenv(k, s)
